@@ -20,6 +20,15 @@ COVER_WORDS_205 = ["/COV/", "/COVER/"]
 F72 = {"MT103": "field_72", "MT202": "field_72", "MT205": "sender_to_receiver"}
 
 
+_W = REJECT_WORDS + RETURN_WORDS + COVER_WORDS_205
+VOCAB = ["", "X", "/XYZ/"] + _W + [a + b for a in _W for b in _W if a != b] + [a[:-1] + b for a in _W for b in _W if a != b] + \
+    ["AB" + a + "CD" for a in _W] + [a.lower() for a in _W]
+
+
+def line_terms(I, ty):
+    return [it.s() for _, it in lines_of(I, ty)[0]]
+
+
 def lines_of(I, ty):
     return I.f(F72[ty]).some().f("information").items(), I.f(F72[ty]).present()
 
@@ -29,7 +38,63 @@ def ref_words(I, ty, words):
     return And(pres, Or(*[And(g, Or(*[z3.Contains(it.s(), z3.StringVal(w)) for w in words])) for g, it in items]))
 
 
-def run(K=2, timeout_ms=120000):
+def _subterms(t, acc, seen):
+    if t.get_id() in seen:
+        return
+    seen.add(t.get_id())
+    acc.append(t)
+    for c in t.children():
+        _subterms(c, acc, seen)
+
+
+def contains_abstraction(formulas, lines, timeout_ms):
+    """(verdict, solver-with-model) for And(formulas) where the string variables `lines` occur only in Contains(line, literal)."""
+    line_ids = {ln.get_id(): ln for ln in lines}
+    terms, seen = [], set()
+    for f in formulas:
+        _subterms(f if z3.is_expr(f) else z3.BoolVal(bool(f)), terms, seen)
+    atoms = {}
+    for t in terms:
+        if z3.is_app(t) and t.decl().kind() == z3.Z3_OP_SEQ_CONTAINS and t.arg(0).get_id() in line_ids and z3.is_string_value(t.arg(1)):
+            atoms[t.get_id()] = (t, t.arg(0), t.arg(1).as_string())
+    subst = [(t, z3.Bool("has_%d_%d" % (ln.get_id(), k))) for k, (t, ln, w) in enumerate(atoms.values())]
+    abstr = [z3.substitute(f, *subst) if z3.is_expr(f) else f for f in formulas]
+    rest, seen2 = [], set()
+    for f in abstr:
+        if z3.is_expr(f):
+            _subterms(f, rest, seen2)
+    if any(t.get_id() in line_ids for t in rest):
+        return z3.unknown, None          # a line is used in some other way: the abstraction does not apply
+    s2 = z3.Solver()
+    s2.set("timeout", timeout_ms)
+    s2.add(*abstr)
+    for _ in range(64):
+        r = s2.check()
+        if r != z3.sat:
+            return r, None
+        mdl = s2.model()
+        vals, block = [], []
+        realisable = True
+        for ln in lines:
+            mine = [(b, w) for (t, b), (_, l2, w) in zip(subst, atoms.values()) if l2.get_id() == ln.get_id()]
+            want = [w for b, w in mine if z3.is_true(mdl.eval(b, model_completion=True))]
+            text = "".join(want)
+            if any((w in text) != (w in want) for b, w in mine):
+                realisable = False
+            vals.append((ln, text))
+            block += [b if not z3.is_true(mdl.eval(b, model_completion=True)) else z3.Not(b) for b, w in mine]
+        if realisable:
+            s3 = z3.Solver()
+            s3.set("timeout", timeout_ms)
+            s3.add(*formulas)
+            s3.add(*[ln == z3.StringVal(v) for ln, v in vals])
+            if s3.check() == z3.sat:
+                return z3.sat, s3
+        s2.add(z3.Or(*block) if block else False)
+    return z3.unknown, None
+
+
+def run(K=2, timeout_ms=15000):
     from common import replay_batch
     prog = Program(layout_mod.extract_ast())
     res = []
@@ -42,6 +107,14 @@ def run(K=2, timeout_ms=120000):
         t0 = time.time()
         r = s.check()
         rec = {"type": ty, "query": name, "verdict": str(r), "time_s": round(time.time() - t0, 2), "K": K}
+        if r == z3.unknown and extra.get("lines"):
+            # the string solver gave up. The only operations on the lines of field 72 are contains(<literal>): replace every
+            # such atom by a free Boolean (an over-approximation, so unsat carries over), and realise a Boolean model by
+            # concatenating the code words it wants present (checked; a pattern that cannot be realised is blocked)
+            r, s = contains_abstraction(list(m.constraints) + [B(formula)], extra["lines"], timeout_ms)
+            rec["time_s"] = round(time.time() - t0, 2)
+            rec["verdict"] = str(r)
+            rec["via"] = "contains-abstraction"
         if r == z3.sat:
             model = s.model()
             if extra.get("level") in ("message", "plugin"):
@@ -105,16 +178,16 @@ def run(K=2, timeout_ms=120000):
                 res.append({"type": ty, "query": meth, "verdict": "not-encoded", "detail": str(e)})
         exp = {"reject": rej_ref, "return": ret_ref}
         if "has_reject_codes" in got:
-            solve(ty, "body:reject-iff-reject-code-word", m, got["has_reject_codes"] != B(rej_ref), inst, {"expected": exp})
+            solve(ty, "body:reject-iff-reject-code-word", m, got["has_reject_codes"] != B(rej_ref), inst, {"expected": exp, "lines": line_terms(I, ty)})
         if "has_return_codes" in got:
-            solve(ty, "body:return-iff-return-code-word", m, got["has_return_codes"] != B(ret_ref), inst, {"expected": exp})
+            solve(ty, "body:return-iff-return-code-word", m, got["has_return_codes"] != B(ret_ref), inst, {"expected": exp, "lines": line_terms(I, ty)})
         if ty == "MT202" and "is_cover_message" in got:
             sb = I.f("sequence_b")
             cov = And(sb.present(), Or(sb.some().f("ordering_customer").present(), sb.some().f("beneficiary_customer").present()))
-            solve(ty, "body:cover-iff-sequence-B-customer-fields", m, got["is_cover_message"] != B(cov), inst, {"expected": {"cover": cov}})
+            solve(ty, "body:cover-iff-sequence-B-customer-fields", m, got["is_cover_message"] != B(cov), inst, {"expected": {"cover": cov}, "lines": line_terms(I, ty)})
         if ty == "MT205" and "is_cover_message" in got:
             cov = ref_words(I, ty, COVER_WORDS_205)
-            solve(ty, "body:cover-iff-cover-code-word", m, got["is_cover_message"] != B(cov), inst, {"expected": {"cover": cov}})
+            solve(ty, "body:cover-iff-cover-code-word", m, got["is_cover_message"] != B(cov), inst, {"expected": {"cover": cov}, "lines": line_terms(I, ty)})
     # ---- SwiftMessage-level predicates and the plugin's method chain --------------------------------
     def ci_contains(sz, word, L):
         """sz contains `word` ignoring ASCII case (sz: printable ASCII of length <= L)"""
@@ -190,8 +263,8 @@ def run(K=2, timeout_ms=120000):
             continue
         inst_for_replay = body
         exp = {"reject": rej_ref, "return": ret_ref}
-        solve(ty, "message:reject-iff-code-word-in-72-or-MUR", m, got["has_reject_codes"] != B(rej_ref), msg, {"expected": exp, "level": "message"})
-        solve(ty, "message:return-iff-code-word-in-72-or-MUR", m, got["has_return_codes"] != B(ret_ref), msg, {"expected": exp, "level": "message"})
+        solve(ty, "message:reject-iff-code-word-in-72-or-MUR", m, got["has_reject_codes"] != B(rej_ref), msg, {"expected": exp, "level": "message", "lines": line_terms(I, ty) if special else []})
+        solve(ty, "message:return-iff-code-word-in-72-or-MUR", m, got["has_return_codes"] != B(ret_ref), msg, {"expected": exp, "level": "message", "lines": line_terms(I, ty) if special else []})
         # the plugin's method selection
         var = "mt%s_message" % ty[2:]
         mine = [a for a in assigns if mentions(a, var)]
@@ -220,7 +293,7 @@ def run(K=2, timeout_ms=120000):
             want = {"reject": r_rej, "return": And(Not(r_rej), r_ret), third: And(Not(r_rej), Not(r_ret), r_third),
                     "normal": And(Not(r_rej), Not(r_ret), Not(r_third))}
             bad = Or(*[is_m(k) != B(v) for k, v in want.items()])
-            solve(ty, "plugin:method-is-the-one-the-classifications-imply", m, bad, msg, {"expected": {}, "level": "plugin"})
+            solve(ty, "plugin:method-is-the-one-the-classifications-imply", m, bad, msg, {"expected": {}, "level": "plugin", "lines": line_terms(I, ty) if special else []})
     # every other assignment to `method` must be the constant "normal"
     others = [a for a in assigns if not any(mentions(a, "mt%s_message" % t[2:]) for t in F72)]
     badconst = []
